@@ -184,6 +184,17 @@ def task_mw(L1, L2, prefix=""):
     return run_task(drv_mw, s, eng, lambda x: x, mk_replay(drv_mw, lambda x: x), False)
 
 
+def task_stack_group(n, tail):
+    """whole stack, a brace-protected word holding line ends / blanks: '{' + n characters over CR, LF, blank, letter + '}'"""
+    eng = Engine()
+    cs = (eng.sym_char("g0", "{"),) + tuple(eng.sym_char(f"g{i + 1}", "\r\n A") for i in range(n)) + (eng.sym_char("g9", "}"),)
+    if tail:
+        cs += tuple(eng.sym_char(f"t{i}", c) for i, c in enumerate(" and b A"))
+    s = mk(cs)
+    wrap = lambda x: mk(tuple(PRE) + chars(x) + tuple(POST))
+    return run_task(drv_stack, s, eng, wrap, mk_replay(drv_stack, lambda x: PRE + x + POST), False)
+
+
 def task_words(seps, via):
     """word-structured names: k one-letter words (upper / lower case decides von vs. last) joined by ' ' or ', ' — reaches the
     multi-word von / last / jr / first parts that free strings of the same budget do not (e.g. 'b, b b, A')"""
@@ -239,6 +250,10 @@ def main():
                 chk.add_task(f"stack-L{L}-{a!r}", task_stack, L=L, prefix=a)
         else:
             chk.add_task(f"stack-L{L}", task_stack, L=L)
+    chk.bounds["whole stack, protected line ends"] = "NAME = '{' + 1..3 characters over CR, LF, blank, 'A' + '}' (alone, and followed by ' and b A')"
+    for n in (3, 2, 1):
+        for tail in (False, True):
+            chk.add_task(f"stack-group-{n}-{int(tail)}", task_stack_group, n=n, tail=tail)
     import itertools
     KW = 5 if chk.tier == "quick" else 6
     chk.bounds["word-structured names"] = f"2..{KW} one-letter words over {{A,b}} joined by every combination of ' ' and ', ' (function pair; up to 4 words through the whole stack)"
